@@ -97,6 +97,39 @@ def handleFuncOpts (s : St) (expShape : Shape) (expType : String) (col : Bool) (
 
 def sameOrd (a b : Dense) : Bool := a.ap.o.col == b.ap.o.col
 
+/-- `sharesMemory(a, b)`: the two storage windows have a cell in common -/
+def sharesMemory (p q : Dense) : Bool :=
+  p.win.buf == q.win.buf && p.win.off < q.win.off + q.win.len && q.win.off < p.win.off + p.win.len
+
+/-- `sameAccess(a, b)`: the same cells in the same sequence (same window, shape and strides) -/
+def sameAccess (p q : Dense) : Bool :=
+  p.win.buf == q.win.buf && p.win.off == q.win.off && p.win.len == q.win.len && p.ap.shape == q.ap.shape &&
+    p.ap.strides == q.ap.strides
+
+/-- `operandFor(t, dst, inPlace)`: the operand itself, or a copy of it (`Clone()`) when the destination of the operation
+    shares memory with it — unless (`inPlace`) the destination addresses exactly the operand's cells in the operand's
+    sequence, which an in-place loop reads before it writes them -/
+def operandFor (s : St) (t dst : Dense) (inPlace : Bool) : Res (St × Dense) :=
+  if !sharesMemory t dst then pure (s, t)
+  else if inPlace && sameAccess t dst then pure (s, t)
+  else t.clone s
+
+/-- the head of `prepDataVV(a, b, reuse)`: the destination first receives the elements of `a`, so `b` is copied whenever
+    it shares memory with the destination; `a` only if the destination addresses its cells in another way -/
+def prepAliasVV (s : St) (a b : Dense) (reuse : Option Dense) : Res (St × Dense × Dense) :=
+  match reuse with
+  | none => pure (s, a, b)
+  | some r => do
+    let (s, b) ← operandFor s b r false
+    let (s, a) ← operandFor s a r true
+    pure (s, a, b)
+
+/-- the head of `prepDataVS` / `prepDataSV` (and of the float engines' `prepDataVSF64/F32`) -/
+def prepAliasT (s : St) (t : Dense) (reuse : Option Dense) : Res (St × Dense) :=
+  match reuse with
+  | none => pure (s, t)
+  | some r => operandFor s t r true
+
 /-- `E.<Op>Incr` / `E.<Op>IterIncr` refuse a length-one increment when exactly one operand is a scalar; the engine
     method returns that error after `handleFuncOpts` has already prepared the destination -/
 def incrRefused (a b incr : Win) : Bool := ((isSc a && !isSc b) || (isSc b && !isSc a)) && isSc incr
@@ -109,6 +142,7 @@ def engArithVV (s : St) (op : String) (tc : List String) (a b : Dense) (o : Opts
   if a.dt != b.dt then throwErr "typeMismatch"
   if !shapeEq a.shape b.shape then throwErr "shapeMismatch"
   let (s, fo) ← handleFuncOpts s a.shape a.dt a.ap.o.col true o
+  let (s, a, b) ← prepAliasVV s a b fo.reuse
   let ksup := (kernelTypes op).contains a.dt   -- else `E.<Op>…` returns "Unsupported type"
   let f : BinF := fun x y => .app2 op x y
   let fv := vecFn op a.dt
@@ -162,14 +196,28 @@ def engArithVV (s : St) (op : String) (tc : List String) (a b : Dense) (o : Opts
 structure ScalarArg where
   win : Win
   dt : String
+  /-- the storage window of the rank-0 tensor that stands for the scalar, if any: its element is copied into `win` when
+      `prepDataVS/SV` run (`scalarToHeader`), i.e. *after* `handleFuncOpts` -/
+  src : Option Win := none
 
 /-- `scalarToHeader` on a rank-0 tensor operand: a fresh one-cell header holding a *copy* of the tensor's element
     (`ScalarValue()` = cell 0 of its storage window, which may be longer when the scalar is a view); the kernels
     never see the operand's own memory -/
 def tenScalar (st : St) (t : Dense) : St × ScalarArg :=
   match st.get t.win 0 with
-  | .ok v => let (st, b) := st.alloc #[v]; (st, { win := ⟨b, 0, 1, 1⟩, dt := t.dt })
+  | .ok v => let (st, b) := st.alloc #[v]; (st, { win := ⟨b, 0, 1, 1⟩, dt := t.dt, src := some t.win })
   | .error _ => (st, { win := { t.win with cap := t.win.len }, dt := t.dt })
+
+/-- `scalarToHeader` runs inside `prepDataVS/SV`, after `handleFuncOpts`: when the latter has reshaped a reuse / increment
+    tensor with a pending transpose — which moves its cells — and the tensor standing for the scalar is a view of those
+    cells, the element copied is the one the view shows *then*. A literal scalar (`src = none`) is untouched. -/
+def ScalarArg.refresh (s : St) (sc : ScalarArg) : St :=
+  match sc.src with
+  | none => s
+  | some w =>
+    match s.get w 0 with
+    | .ok v => (match s.wr sc.win 1 0 v with | .ok s' => s' | .error _ => s)
+    | .error _ => s
 
 /-- arithmetic `StdEng.<Op>Scalar(t, s, leftTensor, opts...)` -/
 def engArithScalar (s : St) (op : String) (tc : List String) (t : Dense) (sc : ScalarArg) (leftTensor : Bool) (o : Opts) :
@@ -177,6 +225,8 @@ def engArithScalar (s : St) (op : String) (tc : List String) (t : Dense) (sc : S
   if !tc.contains t.dt then throwErr "typeclass t"
   if t.dt != sc.dt then throwErr "scalar dtype"
   let (s, fo) ← handleFuncOpts s t.shape t.dt t.ap.o.col true o
+  let (s, t) ← prepAliasT s t fo.reuse
+  let s := sc.refresh s
   let ksup := (kernelTypes op).contains t.dt
   let f : BinF := fun x y => .app2 op x y
   let fv := vecFn op t.dt
@@ -275,6 +325,7 @@ def engCmpVV (s : St) (op : String) (tc : List String) (a b : Dense) (o : Opts) 
   if a.dt != b.dt then throwErr "typeMismatch"
   if !shapeEq a.shape b.shape then throwErr "shapeMismatch"
   let (s, fo) ← handleFuncOpts s a.shape a.dt a.ap.o.col false o
+  let (s, a, b) ← prepAliasVV s a b fo.reuse
   let same := fo.same || !fo.safe
   let fB : BinF := fun x y => .app2 op x y
   let fS : BinF := fun x y => .app2 (op ++ ".same") x y
@@ -332,6 +383,8 @@ def engCmpScalar (s : St) (op : String) (tc : List String) (t : Dense) (sc : Sca
   if !tc.contains t.dt then throwErr "typeclass t"
   if t.dt != sc.dt then throwErr "scalar dtype"
   let (s, fo) ← handleFuncOpts s t.shape t.dt t.ap.o.col false o
+  let (s, t) ← prepAliasT s t fo.reuse
+  let s := sc.refresh s
   let same := fo.same || !fo.safe
   let fB : BinF := fun x y => .app2 op x y
   let fS : BinF := fun x y => .app2 (op ++ ".same") x y
@@ -364,8 +417,8 @@ def engCmpScalar (s : St) (op : String) (tc : List String) (t : Dense) (sc : Sca
       if same && fo.safe then
         if !leftTensor then
           let s ← Dense.copyIterOffsets s r.win dB (ir.map (·.1)) (ib.map (·.1))
-          -- `GtSameIter(typ, dataA, dataReuse, ait, bit)`: the reuse buffer is walked with b's iterator
-          let s ← eOpIter s dA r.win fS ia ib
+          -- `GtSameIter(typ, dataA, dataReuse, ait, iit)`: the result is walked with its own iterator
+          let s ← eOpIter s dA r.win fS ia ir
           pure ⟨s, reuseOut r, retOf r⟩
         else
           let s ← Dense.copyIterOffsets s r.win dA (ir.map (·.1)) (ia.map (·.1))
@@ -432,7 +485,9 @@ def engUnary (s : St) (g : UnF) (tc ktypes : List String) (strict : Bool) (a : D
   if !tc.contains a.dt then throwErr "typeclass a"
   let (s, fo) ← handleFuncOpts s a.shape a.dt a.ap.o.col strict o
   let ksup := ktypes.contains a.dt
-  let useIter := a.requiresIterator || (match fo.reuse with | some r => r.requiresIterator | none => false)
+  -- `prepDataUnary`: also when the destination's data order differs from the operand's (an increment tensor; a reuse
+  -- tensor has been given the operand's order flag by `handleFuncOpts`)
+  let useIter := a.requiresIterator || (match fo.reuse with | some r => r.requiresIterator || !sameOrd r a | none => false)
   let addF : BinF := fun x y => .app2 "add" x y
   if useIter then
     let ia ← a.itStream s
@@ -520,7 +575,7 @@ def engMap (s : St) (g : UnF) (mapTypes : List String) (a : Dense) (o : Opts) : 
         | (s, some m) => pure (s, some m, true)
         | (s, none) => let (s, c) ← a.clone s; pure (s, some c, true)
       else pure (s, none, false) : Res (St × Option Dense × Bool))
-  let useIter := a.requiresIterator || (match reuse with | some r => r.requiresIterator | none => false)
+  let useIter := a.requiresIterator || (match reuse with | some r => r.requiresIterator || !sameOrd r a | none => false)
   let sup := mapTypes.contains a.dt
   let addF : BinF := fun x y => .app2 "add" x y
   if !fo.safe then
